@@ -7,7 +7,7 @@ DEFAULT_WEIGHTS = {
     "put_new": 10, "put_same": 3, "put_reser": 2, "put_change": 6, "put_revert": 3, "put_invalid": 3,
     "put_cond": 3, "put_uidconflict": 2, "put_uidchange": 2, "post": 2, "delete": 5, "delete_missing": 1, "delete_cond_stale": 1,
     "mkcol_new": 1.2, "mkcol_existing": 1, "delete_col": 0.8, "proppatch": 2, "read": 4, "restart": 0.5,
-    "put_missing_col": 0.5, "put_nouid": 0.5, "put_moved": 0, "put_swap": 0, "put_reserved": 0.7,
+    "put_missing_col": 0.5, "put_nouid": 0.5, "put_moved": 0, "put_swap": 0, "put_reserved": 0.7, "locked_writes": 0,
 }
 
 # names for C01-class histories: URL-hostile but not URL-structural
@@ -299,6 +299,33 @@ class Driver:
             # self-consistency: what was acknowledged must be readable and listed like any other member
             w._apply_put(col, name, W.ctype_for(name), body, None, None, r.header("ETag"))
         w.notify(s, r)
+        return [col.path]
+
+    def op_locked_writes(self):
+        """another git process holds .git/index.lock: writes must be refused without side effects"""
+        import os
+        col = self.pick_col(nonempty=True)
+        if col is None or col.backend != "tree":
+            return None
+        lock = os.path.join(self.w.fs_path(col.path), ".git", "index.lock")
+        if os.path.exists(lock):
+            return None
+        name = self.rng.choice(sorted(col.members))
+        m = col.members[name]
+        open(lock, "wb").close()
+        try:
+            self.w.delete(col.path, name)
+            body, uid, tok = self.body_for(name, m.uid)
+            self.w.put(col.path, name, body, op="put_locked", uid=uid, token=tok)
+            free = [n for n in self.names_for(col.path) if n not in col.members]
+            if free and W.ext_of(free[0]) != ".ics":
+                b2, u2, t2 = self.body_for(free[0])
+                self.w.put(col.path, free[0], b2, op="put_locked_new", uid=u2, token=t2)
+        finally:
+            try:
+                os.unlink(lock)
+            except FileNotFoundError:
+                pass
         return [col.path]
 
     def op_put_nouid(self):
